@@ -48,6 +48,8 @@ def run(tier):
         if thorough:
             configs.append(("debug-off", {"debug": True, "show_splicer_comments": False}, []))
         configs = [(n, o, a, K.base_cases(), True) for n, o, a in configs]
+        # a derived class through the C API: its own entry points and the base class's on the same capsule
+        configs.append(("derived", {}, [], K.base_cases()[:3], "derived"))
         # libraries out of the TLA+ grammar LibGen (specs/LibGen.tla): every pairing of rows TLC happens to draw
         libs, rl = libgen.sample_libraries(400 if thorough else 12, common.seed())
         c.add_tlc(rl, "LibGen/simulate")
